@@ -253,7 +253,19 @@ def list_comp(E, n, st):
         for c in g.ifs:
             v, f = pure_eval(E, c, s1, binds, [M[x]] + conds); conds.append(E.truth(v, s1)); facts += f
         ev, f = pure_eval(E, n.elt, s1, binds, [M[x]] + conds); facts += f
-        if not (ev.ty.sort == ety.sort and ev.v.eq(x)): raise Unsupported("mapping comprehension over a set")
+        if not (ev.ty.sort == ety.sort and ev.v.eq(x)):
+            # [f(x) for x in S if c(x)] over a set: a list whose elements are exactly the values f(x) of the selected members
+            # (order and multiplicity unspecified -- enough for max()/membership consumers)
+            res = E.fresh("mapcomp", z3.ArraySort(I, ev.ty.sort)); ln = E.fresh("mapcomplen", I); i = E.fresh("i", I)
+            wit = z3.Function("mapcomp_wit!%d" % E._n, I, ety.sort); idx = z3.Function("mapcomp_idx!%d" % E._n, ety.sort, I)
+            sel = z3.And(M[x], *conds)
+            s1.pc.append(ln >= 0)
+            s1.pc.append(z3.ForAll([x], z3.And(*facts, z3.Implies(sel, z3.And(0 <= idx(x), idx(x) < ln, res[idx(x)] == ev.v)))))
+            fx = z3.substitute(z3.And(sel, res[i] == ev.v), (x, wit(i)))
+            s1.pc.append(z3.ForAll([i], z3.Implies(z3.And(0 <= i, i < ln), fx)))
+            r = E.alloc(s1, ListT(ev.ty), "comp")
+            E.set_seq(s1, r, SeqT(ev.ty).mk(ln, res))
+            yield s1, r; return
         filt = E.fresh("filt", z3.ArraySort(ety.sort, B))
         s1.pc.append(z3.ForAll([x], z3.And(*facts, filt[x] == z3.And(M[x], *conds))))
         from .intrinsics import enum_of_set
